@@ -159,8 +159,19 @@ func (c *Ctx) HarnessError(format string, a ...any) {
 
 // Expired reports whether the worker's internal deadline passed. Enumerations
 // poll it between cases; when it fires the run is reported as not exhaustive.
+// Poisoned reports that the process can no longer be trusted to explore (the
+// scheduler's watchdog fired: threads of an abandoned execution may still be
+// alive). Every loop that polls Expired then winds down; the run ends as a
+// harness error, never as a verdict.
+var Poisoned = func() bool { return false }
+
 func (c *Ctx) Expired() bool {
 	if c.timedOut {
+		return true
+	}
+	if Poisoned() {
+		c.timedOut = true
+		c.HarnessError("an execution hit the scheduler's watchdog: this worker stopped exploring (threads of the abandoned execution may still be alive)")
 		return true
 	}
 	if !c.Deadline.IsZero() && time.Now().After(c.Deadline) {
